@@ -17,6 +17,7 @@ fn main() {
         "writer" => h::eng_writer::main(rest),
         "repair" => h::eng_repair::main(rest),
         "reader" => h::eng_reader::main(rest),
+        "transfer" => h::eng_transfer::main(rest),
         e => {
             eprintln!("unknown engine {e}");
             std::process::exit(2);
